@@ -28,6 +28,7 @@ theorem pin_regPostponed : regPostponed = [
 theorem pin_genNumericOid : genNumericOid = [
     "loop", "if", "if", "if", "raise:error.PySmiSemanticError", "call:error.PySmiSemanticError", "if",
     "raise:error.PySmiSemanticError", "call:error.PySmiSemanticError", "if", "raise:error.PySmiSemanticError",
-    "call:error.PySmiSemanticError", "call:self.genNumericOid", "return:value"] := by decide
+    "call:error.PySmiSemanticError", "if", "raise:error.PySmiSemanticError", "call:error.PySmiSemanticError",
+    "call:self.genNumericOid", "return:value"] := by decide
 
 end Pysmi.Pins.SkelC01
